@@ -166,3 +166,88 @@ def program_sig(case, sess):
         else:
             shape.append((op['op'], op.get('code'), op.get('currency'), op.get('issuer'), op.get('margin', 0) != 0))
     return core.digest(shape)
+
+
+# ---------------------------------------------------------------------------------------
+# twin comparison (C08, C18)
+# ---------------------------------------------------------------------------------------
+
+def compare_series(a, b, rel_thr, rename=None, ignore=()):
+    """Compare two series dicts. rename: maps names of a -> names of b. Returns None or
+    (kind, details, rel_magnitude)."""
+    rename = rename or (lambda n: n)
+    ma = {rename(k): v for k, v in a.items() if k not in ignore}
+    mb = {k: v for k, v in b.items() if rename(k) not in [rename(i) for i in ignore] and k not in ignore}
+    if set(ma) != set(mb):
+        return ('variable-set-differs', {'only_first': sorted(set(ma) - set(mb))[0:8],
+                                         'only_second': sorted(set(mb) - set(ma))[0:8]}, float('inf'))
+    scale = max([1.0] + [abs(x) for v in mb.values() for x in v if core.is_finite_number(x)])
+    worst = None
+    for k in sorted(ma):
+        x, y = ma[k], mb[k]
+        if len(x) != len(y):
+            return ('length-differs', {'var': k, 'first': len(x), 'second': len(y)}, float('inf'))
+        for i in range(len(x)):
+            if x[i] == y[i]:
+                continue
+            if not (core.is_finite_number(x[i]) and core.is_finite_number(y[i])):
+                return ('value-differs', {'var': k, 'k': i, 'first': x[i], 'second': y[i]}, float('inf'))
+            dd = abs(x[i] - y[i]) / (1.0 + scale)
+            if dd > rel_thr and (worst is None or dd > worst[2]):
+                worst = ('value-differs', {'var': k, 'k': i, 'first': x[i], 'second': y[i], 'scale': scale}, dd)
+    return worst
+
+
+def run_and_series(ops):
+    sess = econ.run_program(ops)
+    out = {}
+    for mh in models_in(ops):
+        if mh in sess.H:
+            out[mh] = (econ.model_outcome(sess, mh), econ.series_of(sess, mh))
+    return sess, out
+
+
+def twin_check(ops_a, ops_b, prop, kind, classify, rename=None, ignore=(), stats=None):
+    """Solve both programs, compare every model's series; numeric candidates are confirmed at 1e-13.
+    classify(details) -> signature suffix. Returns list of violations."""
+    stats = stats if stats is not None else {}
+    viol = []
+    sa, ra = run_and_series(ops_a)
+    sb, rb = run_and_series(ops_b)
+    tol = max(tolerance_of(ops_a), tolerance_of(ops_b))
+    cand_thr = max(FINAL_REL, 50.0 * tol)
+    for mh in ra:
+        if mh not in rb:
+            continue
+        (oa, ma), xa = ra[mh]
+        (ob, mb), xb = rb[mh]
+        key = '%s/%s' % (oa, ob)
+        stats.setdefault('outcome_pair', {})
+        stats['outcome_pair'][key] = stats['outcome_pair'].get(key, 0) + 1
+        if oa != ob:
+            if {oa, ob} <= {'ok', 'ConvergenceError'}:
+                stats['inconclusive_nonconvergent'] = stats.get('inconclusive_nonconvergent', 0) + 1
+                continue
+            det = {'first': oa, 'second': ob, 'msg_first': ma, 'msg_second': mb}
+            viol.append(core.violation(prop, kind + ':outcome', kind + ':outcome:' + classify(det), **det))
+            continue
+        if oa != 'ok':
+            stats['both_failed'] = stats.get('both_failed', 0) + 1
+            continue
+        stats['both_solved'] = stats.get('both_solved', 0) + 1
+        d = compare_series(xa, xb, cand_thr, rename=rename, ignore=ignore)
+        if d is not None and d[2] != float('inf') and tol > 1e-12:
+            stats['candidates'] = stats.get('candidates', 0) + 1
+            _s1, r1 = run_and_series(with_tight(ops_a))
+            _s2, r2 = run_and_series(with_tight(ops_b))
+            if r1[mh][0][0] == 'ok' and r2[mh][0][0] == 'ok':
+                d = compare_series(r1[mh][1], r2[mh][1], FINAL_REL, rename=rename, ignore=ignore)
+                if d is None:
+                    stats['noise_discarded'] = stats.get('noise_discarded', 0) + 1
+            else:
+                stats['inconclusive_confirmation_failed'] = stats.get('inconclusive_confirmation_failed', 0) + 1
+                d = None
+        if d is not None:
+            viol.append(core.violation(prop, kind + ':' + d[0], kind + ':' + d[0] + ':' + classify(d[1]),
+                                       rel_magnitude=d[2], **d[1]))
+    return viol, sa, sb
